@@ -122,6 +122,8 @@ type env struct {
 	res    *Result
 	replay string
 	scale  float64 // multiplies case counts (VERIF_SCALE), default 1
+
+	pending []pendingOp
 }
 
 func (e *env) n(quick, thorough int) int {
